@@ -3,7 +3,6 @@ import PyYetiVerif.Model.UsetUp
 import PyYetiVerif.Model.Locate
 import PyYetiVerif.Model.UsetXyz
 import PyYetiVerif.Model.UsetTran
-import PyYetiVerif.Model.UsetTranFixed
 /-! Line protocol for C18.  A request is `op args | section | section …`; sections hold
 space-separated integers (matrix rows are separated by `;`).  Replies: `ok …` with sections
 separated by ` | `, or `value-error` / `index-error` / `key-error` / `type-error` /
@@ -37,7 +36,6 @@ separated by ` | `, or `value-error` / `index-error` / `key-error` / `type-error
   funique <tn> <td> | y…       -> ok 1 0 …   (tol = tn/td)
   ftran <se> <gset> 1 <g>|2 | (five nas sections) | got | goq | gm | pha | phg | request
                                -> ok nr nc : entries | id dof …            (formtran; a matrix section is `se : nr nc v … ; …`)
-  ftranfx …                                    like ftran: the CANDIDATE FIX of finding F69 (`formtranFixed`, iddof = the g-set rows)
   fulvs <seup> <sedn> <keepcset> <shortcut> <gset> | (5) | (5 matrices) | ulvs      -> ok one / ok nr nc : entries   (formulvs)
   fdrm <seup> <sedn> <gset> 1 <g>|2 | (5) | (5 matrices) | ulvs | request           -> ok nr nc : entries | id dof …  (formdrm)
   qftran / qfulvs / qfdrm                      the same three with rational entries `n/d` (the nas2cam files of pyYeti's tests;
@@ -280,12 +278,6 @@ def answer (line : String) : String :=
       match se.toNat?, nasTOf [s1, s2, s3, s4, s5, a, b, c, d, e], request kind rq with
       | some se, some nt, some rq =>
           replyT (formtran (fun i d => [(i : Int), (d : Int)]) mks nt se rq (gset = "1")) (fun r => showM r.1 ++ " | " ++ showL (flat2 r.2))
-      | _, _, _ => "bad-op"
-  | "ftranfx" :: se :: gset :: kind, [s1, s2, s3, s4, s5, a, b, c, d, e, rq] =>
-      -- the CANDIDATE FIX of finding F69 (`Model/UsetTranFixed.formtranFixed`; corpus/c18_f69_candidate_check.py)
-      match se.toNat?, nasTOf [s1, s2, s3, s4, s5, a, b, c, d, e], request kind rq with
-      | some se, some nt, some rq =>
-          replyT (formtranFixed (fun i d => [(i : Int), (d : Int)]) mks nt se rq (gset = "1")) (fun r => showM r.1 ++ " | " ++ showL (flat2 r.2))
       | _, _, _ => "bad-op"
   | ["fulvs", seup, sedn, kc, sc, gset], [s1, s2, s3, s4, s5, a, b, c, d, e, u] =>
       match seup.toNat?, sedn.toNat?, nasTOf [s1, s2, s3, s4, s5, a, b, c, d, e], ulvsOf u with
